@@ -50,7 +50,7 @@ func safeRun(s system, hist []int, check bool) (key string, applicable bool, vs 
 				last = opKind(s.OpNames()[hist[len(hist)-1]])
 			}
 			key, applicable, expand, outcome = "", true, false, "go-panic"
-			vs = []viol{{sig: fmt.Sprintf("go-api kind=%s go-panic: %s", s.Name(), engine.PanicSig(fmt.Sprint(p), st)),
+			vs = []viol{{sig: fmt.Sprintf("go-api kind=%s go-panic %s", s.Name(), firstFrame(engine.PanicSig(fmt.Sprint(p), st))),
 				detail: fmt.Sprintf("Go panic after %s: %v\n%s", last, p, trimStack(st))}}
 		}
 	}()
@@ -103,6 +103,7 @@ func explore(r *engine.R, s system, maxDepth, maxStates, part, nparts int) bfsSt
 	seen[key0] = struct{}{}
 	st.states = 1
 	r.AddValidated(1)
+	var deepest []int
 	frontier := [][]int{{}}
 	if !expand0 {
 		frontier = nil
@@ -142,6 +143,7 @@ func explore(r *engine.R, s system, maxDepth, maxStates, part, nparts int) bfsSt
 				seen[key] = struct{}{}
 				next = append(next, h2)
 				st.maxDepth = depth
+				deepest = h2
 			}
 		}
 		frontier = next
@@ -150,6 +152,7 @@ func explore(r *engine.R, s system, maxDepth, maxStates, part, nparts int) bfsSt
 		st.closed = false // depth bound reached with unexplored states
 	}
 	st.states = len(seen)
+	r.Sample(fmt.Sprintf("%s: history of a deepest new state: %s", s.Name(), histString(s, deepest)))
 	r.AddStates(st.states)
 	r.AddTrans(st.trans)
 	r.AddValidated(st.trans) // every transition is executed on the real object and all observers compared
@@ -177,4 +180,14 @@ func cpuSeconds() float64 {
 	var ru syscall.Rusage
 	syscall.Getrusage(syscall.RUSAGE_SELF, &ru)
 	return float64(ru.Utime.Sec+ru.Stime.Sec) + float64(ru.Utime.Usec+ru.Stime.Usec)/1e6
+}
+
+// firstFrame keeps the panic message and the innermost elk frame of a panic signature: the same failing
+// function reached through different callers is one defect.
+func firstFrame(sig string) string {
+	parts := strings.Split(sig, " @ ")
+	if len(parts) < 2 {
+		return sig
+	}
+	return "in " + parts[1] + ": " + parts[0] // frame first: replay file names are cut after 90 characters
 }
